@@ -256,7 +256,7 @@ Qed.
 (* the length-only evaluator used by the correspondence check decides like [serve] *)
 Lemma c15_case_sound mac a now kv kg q declared broken :
   header_value_ok now = true ->
-  match snd (c15_case (q_method q) (u_path (q_uri q)) (u_query (q_uri q)) true declared
+  match snd (c15_case (q_method q) (u_path (q_uri q)) (u_query (q_uri q)) 0 declared
                       (map blen (q_frames q)) broken) with
   | VLocal s => serve mac (PreProceed a) now kv kg true q declared broken = local s
   | VRelayed n =>
